@@ -39,6 +39,43 @@ theorem beGet_bePut (w v : Nat) : beGet (bePut w v) = v % 256 ^ w := by
 theorem beGet_bePut_of_lt {w v : Nat} (h : v < 256 ^ w) : beGet (bePut w v) = v := by
   rw [beGet_bePut, Nat.mod_eq_of_lt h]
 
+theorem beGet_lt (bs : Bytes) : beGet bs < 256 ^ bs.length := by
+  induction bs with
+  | nil => simp [beGet]
+  | cons b bs ih =>
+    rw [beGet_cons, List.length_cons, Nat.pow_succ]
+    have := b.toNat_lt
+    have h2 : b.toNat * 256 ^ bs.length ≤ 255 * 256 ^ bs.length := Nat.mul_le_mul_right _ (by omega)
+    omega
+
+theorem beGet_inj (a b : Bytes) (hl : a.length = b.length) (h : beGet a = beGet b) : a = b := by
+  induction a generalizing b with
+  | nil => cases b with
+    | nil => rfl
+    | cons _ _ => simp at hl
+  | cons x xs ih =>
+    cases b with
+    | nil => simp at hl
+    | cons y ys =>
+      have hl' : xs.length = ys.length := by simpa using hl
+      rw [beGet_cons, beGet_cons, hl'] at h
+      have h1 := beGet_lt xs
+      have h2 := beGet_lt ys
+      rw [hl'] at h1
+      have hpos : 0 < 256 ^ ys.length := Nat.pos_of_ne_zero (by simp)
+      have hxy : x.toNat = y.toNat := by
+        have e1 : (x.toNat * 256 ^ ys.length + beGet xs) / 256 ^ ys.length = x.toNat := by
+          rw [Nat.add_comm, Nat.add_mul_div_right _ _ hpos, Nat.div_eq_of_lt h1, Nat.zero_add]
+        have e2 : (y.toNat * 256 ^ ys.length + beGet ys) / 256 ^ ys.length = y.toNat := by
+          rw [Nat.add_comm, Nat.add_mul_div_right _ _ hpos, Nat.div_eq_of_lt h2, Nat.zero_add]
+        rw [← e1, ← e2, h]
+      have hrest : beGet xs = beGet ys := by rw [hxy] at h; omega
+      rw [ih ys hl' hrest, UInt8.toNat_inj.mp hxy]
+
+
+
+
+
 /-! ### the chunked reader -/
 
 
